@@ -213,6 +213,15 @@ func (e *engine) doStep(st Step) {
 				err = db.Checkpoint(sim.Ctx())
 			}
 			e.pg.ForgetWAL()
+		case "DropDB":
+			// unlink of the database through the FUSE handler; every handle of the connection goes first
+			e.conn.Close()
+			e.plan = sim.Plan{Kind: "drop", Out: "commit"}
+			c2 := e.node.Connect(e.name, 102)
+			err = c2.RemoveDB()
+			if err == nil {
+				e.pg = sim.NewPager(e.conn, e.cfg.Layout, e.cfg.Pager)
+			}
 		case "Retain":
 			e.node.Store.Retention = time.Nanosecond
 			time.Sleep(2 * time.Millisecond)
@@ -223,7 +232,7 @@ func (e *engine) doStep(st Step) {
 		}
 	})
 	after := e.snapshot()
-	capture := st.A == "JFinal" || st.A == "WEnd"
+	capture := st.A == "JFinal" || st.A == "WEnd" || st.A == "DropDB"
 	prop := "C02"
 	if e.plan.Kind == "w" || st.A == "Ckpt" || st.A == "LCkpt" || st.A == "WHdr" || st.A == "WFrame" || st.A == "WEnd" {
 		prop = "C03"
@@ -275,6 +284,17 @@ func (e *engine) doStep(st Step) {
 	if capture {
 		e.checkCapture(st, prop, before, after, delta, shape)
 	}
+	if st.A == "DropDB" {
+		e.res.Evals += 2
+		if after.chk != uint64(1)<<63 || delta != 1 {
+			e.fail("C15", "C15.drop-is-one-transaction", "drop-position", map[string]any{"before": before.txid, "after": after.txid, "chk": after.chk})
+		}
+		for _, f := range []string{"database", "journal", "wal", "shm"} {
+			if _, serr := os.Stat(filepath.Join(e.dbDir, f)); serr == nil {
+				e.fail("C15", "C15.files-removed", "file-left/"+f+"/primary", nil)
+			}
+		}
+	}
 
 	// ---- C04 whenever a position is (newly) reported ----
 	if delta != 0 || st.O.I {
@@ -323,6 +343,9 @@ func (e *engine) shape() string {
 		grow = "grow"
 	} else if pl.Ns < len(e.pg.Ref) {
 		grow = "shrink"
+	}
+	if pl.Kind == "drop" {
+		return "drop"
 	}
 	if pl.Kind == "j" {
 		hv := "hdr-unsynced"
